@@ -16,6 +16,7 @@ UNIT_MAP = {
     'cao_lang_table': ['cao_lang_table'],
     'object_laws': ['object_laws'],
     'frames': ['closure_capture'],
+    'gc_roots': ['gc_roots'],
     'names': ['name_resolution'],
     'error_trace': ['error_trace'],
     'emission': ['decode_walk'],
@@ -28,7 +29,7 @@ UNIT_MAP = {
     'resolve': ['name_resolution'],
 }
 # drivers whose target may crash the process: the search leaves the current input in a file
-CRASH_PRONE = {'decode_walk'}
+CRASH_PRONE = {'decode_walk', 'gc_roots'}
 _built = {}
 
 def build(repo, scratch):
